@@ -407,6 +407,9 @@ fn run(ctx: &mut Ctx) {
     if ctx.shard == 6 % ctx.nshards {
         low_nofile_slice(ctx);
     }
+    if ctx.shard == 5 % ctx.nshards {
+        undecodable_names_slice(ctx);
+    }
     fault_slice(ctx);
 }
 
@@ -708,7 +711,57 @@ fn visible(fs: &Fs, n: usize, path: String, unreadable: &[usize], out: &mut Vec<
     }
 }
 
+/// Entries whose names are not valid UTF-8 — dangling links among them, and a directory so named with
+/// a dangling link below it: under -L a dangling link "is still visited as a link" whatever its bytes.
+/// The paths are counted (one record per entry), not compared: how such bytes are printed is not the
+/// subject here.
+fn undecodable_names_slice(ctx: &mut Ctx) {
+    use std::os::unix::ffi::OsStrExt;
+    let base = ctx.sbx.join("ud");
+    let _ = crate::sandbox::force_remove(&base);
+    let os = |b: &[u8]| std::ffi::OsStr::from_bytes(b).to_os_string();
+    std::fs::create_dir_all(base.join("r").join(os(b"dir\xfe"))).unwrap();
+    std::fs::write(base.join("r").join(os(b"dir\xfe")).join("f"), b"").unwrap();
+    let ln = |t: &[u8], p: std::path::PathBuf| std::os::unix::fs::symlink(os(t), p).unwrap();
+    ln(b"nowhere", base.join("r/ok"));
+    ln(b"nowhere", base.join("r").join(os(b"l\xff")));
+    ln(b"missing/x", base.join("r").join(os(b"\x80")));
+    ln(b"nowhere", base.join("r").join(os(b"dir\xfe")).join("dang"));
+    ln(b"f/x", base.join("r").join(os(b"dir\xfe")).join(os(b"e\xe2\x82")));
+    ln(b"no\xffwhere", base.join("r/bt"));
+    std::env::set_current_dir(&base).unwrap();
+    // r, ok, l\xff, \x80, bt, dir\xfe, dir\xfe/f, dir\xfe/dang, dir\xfe/e...
+    let total = 9usize;
+    for pre in [vec!["-P"], vec!["-H"], vec!["-L"], vec![]] {
+        for tail in [vec![], vec!["-follow"], vec!["-depth"], vec!["-mindepth", "1"]] {
+            let mut args: Vec<&str> = pre.clone();
+            args.push("r");
+            args.extend(tail.iter().copied());
+            args.push("-print0");
+            let got = run_find(&args);
+            ctx.rep.evaluations += 1;
+            ctx.rep.nontrivial += 1;
+            ctx.rep.count("undecodable_name_runs", 1);
+            let want = if tail == ["-mindepth", "1"] { total - 1 } else { total };
+            let n = got.out.iter().filter(|&&c| c == 0).count();
+            if n != want || got.code != Ok(0) || !got.err.is_empty() {
+                ctx.rep.violation(
+                    "C02 entries whose names are not valid UTF-8 (dangling links among them) are not each visited exactly once",
+                    format!("find {:?}: {n} entries printed, expected {want}; status {:?}; stderr {:?}", args, got.code, String::from_utf8_lossy(&got.err)),
+                    json!({"prop":"C02","undecodable":true}),
+                );
+            }
+        }
+    }
+    std::env::set_current_dir(&ctx.sbx).unwrap();
+    let _ = crate::sandbox::force_remove(&base);
+}
+
 fn replay(case: &Value, ctx: &mut Ctx) -> Option<String> {
+    if case["undecodable"] == true {
+        undecodable_names_slice(ctx);
+        return ctx.rep.violations.keys().next().cloned();
+    }
     if case["nofile"] == true {
         low_nofile_slice(ctx);
         return ctx.rep.violations.keys().next().cloned();
